@@ -322,11 +322,16 @@ def _pick(vec, is_max):
             continue
         if n.op == "inf" or nodes[k].op == "inf":
             continue
-        d = sc.sub(nodes[k], n) if is_max else sc.sub(n, nodes[k])
+        hi, lo = (nodes[k], n) if is_max else (n, nodes[k])          # hi > lo is the fact to record
+        v = vals[k] - vals[j] if is_max else vals[j] - vals[k]
+        # one orientation per unordered pair, so that different winners branch on the same comparison terms
+        if hi.id <= lo.id:
+            d, rel = sc.sub(hi, lo), ">"
+        else:
+            d, rel = sc.sub(lo, hi), "<"
         if sc.isc(d):
             continue
-        v = vals[k] - vals[j] if is_max else vals[j] - vals[k]
-        sc.record_pc(d, ">" if v > 0 else ("==" if CTX.allow_ties else "tie"))
+        sc.record_pc(d, rel if v > 0 else ("==" if CTX.allow_ties else "tie"))
     return k
 
 
